@@ -159,7 +159,7 @@ def case_digitize(shape, ns):
                     return True, f"digitize_data cell ({r_},{c}) with column grid {grids[c].tolist()}: {why}"
         return False, "ok"
 
-    return Case(f"digitize-{R}x{C}-{'_'.join(map(str, ns))}", body, replay)
+    return Case(f"digitize-{R}x{C}-{'_'.join(map(str, ns))}", body, replay, split=4 if R * C >= 4 else 0)
 
 
 def cases(tier, seed):
@@ -173,7 +173,7 @@ def cases(tier, seed):
         exact_ns = list(range(1, 41)) + [50, 64, 100, 128, 200]
         rt_ns = range(1, 25)
         idem = range(1, 13)
-        dig = [((1, 1), (4,)), ((2, 1), (4,)), ((1, 2), (2, 3)), ((2, 2), (3, 2)), ((3, 2), (2, 3)), ((2, 3), (2, 3, 2)), ((2, 2), (4, 4))]
+        dig = [((1, 1), (4,)), ((2, 1), (4,)), ((1, 2), (2, 3)), ((2, 2), (3, 2)), ((3, 2), (2, 2)), ((2, 3), (2, 2, 2)), ((2, 2), (4, 3)), ((3, 3), (1, 2, 1))]
     for n in exact_ns:
         cs.append(case_single(n, False))
     for n in rt_ns:
